@@ -24,6 +24,7 @@ CHARS = {
     'markup': ['<', '>', '&'],
     'quote': ["'", '"'],
     'ws': ['\t', '\n', '\r'],
+    'nl': ['\n'],
     'ctl': ['\x00', '\x01', '\x08', '\x0b', '\x0c', '\x0e', '\x1f'],
     'nonascii': ['\xe9', '\x80', '\x85', '\xa0', ' ', '中', '�', '퟿', '', '\U00010000', '\U0001F600', '\U0010ffff'],
     'nonchar': ['￾', '￿', '\ud800', '\udfff'],
@@ -124,6 +125,25 @@ def replay_behaviour(ctx, XmlWrite, hist, rng, flavour):
                         expected[-1] = ('chars', expected[-1][1] + s)
                     else:
                         expected.append(('chars', s))
+            elif op == 'charsbr':
+                s = concrete(c['s'], rng)
+                if flavour != 'xhtml':          # only XhtmlStream has it: elsewhere the caller's loop, as documented
+                    s = s.replace('\n', '')
+                    xs.characters(s)
+                    pieces = [s]
+                else:
+                    xs.charactersWithBr(s)
+                    pieces = s.split('\n')
+                    if pieces[-1] == '' and len(pieces) > 1:
+                        pieces = pieces[:-1] + [None]        # a trailing LF ends with its <br/>
+                for k, piece in enumerate(pieces):
+                    if piece:
+                        if expected and expected[-1][0] == 'chars':
+                            expected[-1] = ('chars', expected[-1][1] + piece)
+                        else:
+                            expected.append(('chars', piece))
+                    if k < len(pieces) - 1:
+                        expected += [('start', 'br', {}), ('end', 'br')]
             elif op == 'comment':
                 s = concrete(c['s'], rng).replace('-', '=')     # '--' inside comments is outside the property
                 xs.comment(s)
@@ -451,10 +471,11 @@ def run(ctx):
     maxcalls = ctx.pick(3, 4)
     consts = {'Names': frozenset(['a', 'b']),
               'AttrVals': frozenset([('plain',), ('quote', 'ws'), ('ctl',), ('nonchar', 'markup'), ('nonascii', 'quote')]),
-              'Texts': frozenset([(), ('plain', 'markup'), ('ws', 'nonascii'), ('ctl', 'quote'), ('nonchar',)])}
+              'Texts': frozenset([(), ('plain', 'markup'), ('ws', 'nonascii'), ('ctl', 'quote'), ('nonchar',)]),
+              'BrTexts': frozenset([(), ('plain',), ('nl',), ('markup', 'nl', 'plain'), ('nl', 'nl', 'quote'), ('plain', 'plain', 'nl')])}
     r, states = ctx.tlc_dump('MC_XmlStream', 'XmlStream', consts=consts, cfg_consts={'MaxCalls': str(maxcalls), 'F7': 'FALSE'},
                              invariants=['WellFormed', 'Faithful', 'StackMatchesOutput', 'BoundOK'],
-                             need_actions=['StartElement', 'Characters', 'Comment', 'EndElement', 'Exit'], timeout=1500)
+                             need_actions=['StartElement', 'Characters', 'CharsBr', 'Comment', 'EndElement', 'Exit'], timeout=1500)
     # the same model with the implementation's known deviation (F7) switched on must violate WellFormed
     rf7 = ctx.tlc_check('MC_XmlStream_F7', 'XmlStream', consts=consts, cfg_consts={'MaxCalls': '2', 'F7': 'TRUE'},
                         invariants=['WellFormed'], expect_ok=False, timeout=600)
